@@ -223,9 +223,9 @@ def compare(steps, model_out):
         if mp.startswith("!disabled"):
             return {"at": i, "label": label, "why": "label not enabled in the model", "model": mp, "impl": proj}
         mproj, _, mobs = mp.partition("#")
-        for key in ("x", "pp"):     # components the implementation no longer exposes under the known name are not compared
+        for key in ("x", "pp", "sf", "ff"):     # components the implementation no longer exposes under the known name are not compared
             if f",{key}=?," in proj:
-                mproj = re.sub(rf",{key}=\d,", f",{key}=?,", mproj)
+                mproj = re.sub(rf",{key}=[\dP-],", f",{key}=?,", mproj)
         mobs = [o for o in mobs.split(",") if o and o not in MODEL_ONLY_OBS]
         if mproj == proj and canon_obs(mobs) != canon_obs(obs) and any(o.startswith("X") for o in obs) and any(o.startswith("X") for o in mobs):
             # a responder's write raised inside the dispatch loop: whether user subscribers of the SAME type (5/7/36) were
